@@ -1,6 +1,7 @@
 from typing import Any
 from abc import abstractmethod, ABCMeta
 import asyncio
+import concurrent.futures
 import logging
 import threading
 
@@ -100,8 +101,24 @@ class BaseRunner(metaclass=ABCMeta):
         if self._stopped.is_set():
             return
         # the loop exists independently of all runners, we can use it to shut down
-        closed = asyncio.run_coroutine_threadsafe(self.aclose(), self.asyncio_loop)
-        closed.result()
+        # It may also shut down on its own at the same time, e.g. due to a payload
+        # failure: it then cancels our request or is closed before handling it.
+        # All runners are closed by the loop itself in that case.
+        try:
+            closed = asyncio.run_coroutine_threadsafe(self.aclose(), self.asyncio_loop)
+            while True:
+                try:
+                    closed.result(timeout=0.1)
+                except concurrent.futures.TimeoutError:
+                    if self.asyncio_loop.is_closed():
+                        break
+                else:
+                    break
+        except concurrent.futures.CancelledError:
+            pass
+        except RuntimeError:
+            if not self.asyncio_loop.is_closed():
+                raise
 
 
 class OrphanedReturn(Exception):
